@@ -1385,6 +1385,12 @@ class C08Session:
             if kw:
                 self.ind.get_generic_indices(**kw)
                 self.ind.get_generic_indices(**kw)
+            # plain requests without spin still mean "no spin"
+            from adcgen.indices import get_symbols
+            plain = get_symbols("ijkabcpq")
+            if any(self.key_of(s_)[1] for s_ in plain):
+                self.viol("registry", "R3", f"get_symbols('ijkabcpq') returned spin-labelled "
+                          f"indices {plain}")
             op, gs = self.objs()
             for _ in range(2):
                 self._record_fresh(gs.psi(1, "ket"), self.psis, "psi(1,ket)")
